@@ -230,7 +230,30 @@ func c14Direct(r *Run, h int) {
 			}()
 			perr = f()
 		}
-		switch k := r.Rng.Intn(10); {
+		multi := false
+		switch k := r.Rng.Intn(11); {
+		case k == 10:
+			// one notification with several rows, one of which the cache cannot take (a modification of a row it
+			// does not hold): the rows applied before the error stay, and each of them has its event
+			multi = true
+			st.Kind = "multi2(with a row that cannot be applied)"
+			tu := ovsdb.TableUpdate2{}
+			held := map[string]bool{}
+			for _, d := range before {
+				held[d.UUID] = true
+			}
+			for j := 1; j <= 5; j++ {
+				if id := mkUUID(j); !held[id] {
+					row := ovsRow(genC05Row(r.Rng))
+					if len(spec.Tables[0].Indexes) > 0 {
+						row["name"] = fmt.Sprintf("multi-%d-%d", i, j) // (no index collision among them)
+					}
+					tu[id] = &ovsdb.RowUpdate2{Insert: &row}
+				}
+			}
+			mod := ovsRow(Row{"n": VA(AI(5))})
+			tu[mkUUID(99)] = &ovsdb.RowUpdate2{Modify: &mod}
+			call(func() error { return tc.Populate2(ovsdb.TableUpdates2{"T": tu}) })
 		case k < 4:
 			st.Kind, st.Row = "insert2", genC05Row(r.Rng)
 			row := ovsRow(st.Row)
@@ -294,7 +317,7 @@ func c14Direct(r *Run, h int) {
 				r.Violation("direct", cs, perr.Error(), "", true, "applying a notification panicked", "")
 				return
 			}
-			if dumpCanon(before) != dumpCanon(after) {
+			if dumpCanon(before) != dumpCanon(after) && !multi {
 				r.Case("direct", "")
 				r.Violation("direct", cs, dumpCanon(after), dumpCanon(before), true, "a notification that was rejected with an error changed the cache", "")
 				return
